@@ -41,7 +41,8 @@ Inductive ev :=
 
 (* the application: what it calls in each slot.  [on_headers] may depend on the parsed request
    (the server's routing does); [hdr_after] = the observer's headersParsed slot runs after it. *)
-Record pol := { on_headers : request -> list aop; on_ready : list aop; on_finished : list aop; hdr_after : bool }.
+Record pol := { on_headers : request -> Z -> list aop;   (* request, bytesAvailable() at that moment *)
+                 on_ready : list aop; on_finished : list aop; hdr_after : bool }.
 
 (* environment: library version string and the tabulated answers of QUrl *)
 Record env := {
@@ -383,8 +384,8 @@ Definition read_headers (e : env) (p : pol) (s : sock) : bool * R :=
               let rq := {| q_method := m; q_raw := target; q_path := path; q_query := query; q_headers := h |} in
               (true,
                if hdr_after p
-               then apply_aops e s1 (on_headers p rq) >>= fun s3 => (s3, [ESnap rq tot; EHeaders (avail s3)])
-               else (s1, [ESnap rq tot; EHeaders (avail s1)]) >>= fun s2 => apply_aops e s2 (on_headers p rq))
+               then apply_aops e s1 (on_headers p rq (avail s1)) >>= fun s3 => (s3, [ESnap rq tot; EHeaders (avail s3)])
+               else (s1, [ESnap rq tot; EHeaders (avail s1)]) >>= fun s2 => apply_aops e s2 (on_headers p rq (avail s1)))
           end
       end
   end.
